@@ -4,6 +4,7 @@ import RbV.Ref.PoaCheck
 import RbV.Ref.PoaAccept
 import RbV.Model.Poa
 import RbV.Model.PoaBanded
+import RbV.Model.PoaCustom
 /-! Driver for property C16 (partial-order alignment).
 
 `c16 <gap>:<xp>:<xs>:<yp>:<ys> <alphabet> <table> <reference> <step>/… => g:<labels>:<edges> c:<cons> | [b:<sc>] s:<sc> o:<ops> [g:… c:…] | …`
@@ -152,7 +153,7 @@ def checkCons (st : St) (d : Dump) (c : String) (at_ : String) : St :=
 
 def fullBand (st : Step) (m : Nat) : Bool := st.bw ≥ m && st.bw ≥ st.query.length
 
-def stepCheck (sc : Sc) (xp yp : Int) (clipsDefault uniq : Bool) (ref : List Nat) (st : St) (idx : Nat) (sp : Step) (g : Grp) : St :=
+def stepCheck (sc : Sc) (xp xs yp ys : Int) (clipsDefault uniq : Bool) (ref : List Nat) (st : St) (idx : Nat) (sp : Step) (g : Grp) : St :=
   if st.stopped || st.bad.isSome then st else
   let at_ := toString idx
   let st := st.tag ("mode-" ++ sp.mode)
@@ -213,9 +214,22 @@ def stepCheck (sc : Sc) (xp yp : Int) (clipsDefault uniq : Bool) (ref : List Nat
           else st.tag "banded-model"
         | none => st
       else if sp.mode = "b" then
-        if Model.bandedScore sc xp yp st.cur.labels st.cur.wes sp.query sp.bw ≠ s then st.tag "drift-banded-score"
-        else st.tag "banded-model"
+        let st := if Model.bandedScore sc xp yp st.cur.labels st.cur.wes sp.query sp.bw ≠ s then st.tag "drift-banded-score"
+          else st.tag "banded-model"
+        if (Model.bandedTable sc xp yp st.cur.labels st.cur.wes sp.query sp.bw).ops st.cur.labels.length ≠ ops
+        then st.tag "drift-banded-ops" else st
       else st
+    -- the faithful model of `Poa::custom` (clip cells included), every mode that runs it
+    let st :=
+      if sp.mode = "b" then st else
+      let clips : Int × Int × Int × Int :=
+        if sp.mode = "g" then (minScore, minScore, minScore, minScore)
+        else if sp.mode = "s" then (minScore, minScore, 0, 0)
+        else if sp.mode = "l" then (0, 0, 0, 0)
+        else (xp, xs, yp, ys)
+      let (cs, cops) := Model.customAlign sc clips.1 clips.2.1 clips.2.2.1 clips.2.2.2 st.cur.labels st.cur.wes sp.query
+      let st := if cs ≠ s then st.tag "drift-custom-score" else st.tag "custom-model"
+      if cops ≠ ops then st.tag "drift-custom-ops" else st
     let st := if hasClip ops then st.tag "clip-ops" else st
     let st := if sp.mode = "b" && !fullBand sp m then st.tag "narrow-band" else st
     -- graph clauses
@@ -284,7 +298,7 @@ def verdict (toks : List String) (out : String) : String :=
           let st := if uniq then st.tag "uniq-scheme" else st
           let st := if !clipsDefault then st.tag "clip-penalties" else st
           if gs.length > steps.length then "bad-op more-groups-than-steps" else
-          let st := ((steps.zip gs).zipIdx).foldl (fun st ((sp, g), i) => stepCheck sc xp yp clipsDefault uniq ref st i sp g) st
+          let st := ((steps.zip gs).zipIdx).foldl (fun st ((sp, g), i) => stepCheck sc xp xs yp ys clipsDefault uniq ref st i sp g) st
           match st.bad with
           | some b => "bad-op " ++ b
           | none =>
